@@ -439,6 +439,21 @@ Proof.
     intros e He Q. rewrite forallb_forall in K2. specialize (K2 e He). rewrite Q in K2. discriminate.
 Qed.
 
+(* several polygons: every triangle belongs to exactly one polygon (its centroid is strictly inside exactly one), and each polygon
+   with its own triangles satisfies CdtSpec *)
+Lemma forallb_flat_map : forall {A B} (g : B -> bool) (f : A -> list B) l,
+  forallb g (flat_map f l) = forallb (fun x => forallb g (f x)) l.
+Proof. intros A B g f. induction l as [ | a r IH ]; [ reflexivity | ]. cbn [flat_map forallb]. rewrite forallb_app, IH. reflexivity. Qed.
+Theorem check_cdt_sound : forall ps tris, check_cdt ps tris = true ->
+  (forall t, In t tris -> owner_count (map poly6 ps) t = 1)
+  /\ forall p, In p ps -> CdtSpec p (map tri_ccw (owned_by p tris)).
+Proof.
+  intros ps tris H. unfold check_cdt, cdt_multi_clauses in H. apply forallb_snd_cons in H. destruct H as [H0 H]. cbn [snd] in H0.
+  rewrite forallb_flat_map in H. rewrite forallb_forall in H0, H. split.
+  - intros t Ht. apply Z.eqb_eq, H0, Ht.
+  - intros p Hp. apply check_cdt1_sound. unfold check_cdt1. apply H, Hp.
+Qed.
+
 (* the area clause is also a consequence of the edge clauses: *)
 Theorem cdt_area_from_manifold : forall p ts, CdtSpec p ts -> area_sum ts = zsum (map cross (noded_boundary p)).
 Proof.
